@@ -7,10 +7,16 @@ SPEC = {
         {"name": "history", "pkg": O4, "kind": "rapid", "run": "^TestVerifC18History$",
          "quick": {"checks": 600, "shards": 1, "timeout": 300},
          "thorough": {"checks": 2000, "shards": 16, "timeout": 900}},
-        # six test functions (one per start kind), each one rapid.Check: checks = traced starts per kind and shard
-        {"name": "crash-start", "pkg": O4, "kind": "rapid", "run": "^TestVerifC18CrashStart",
-         "quick": {"checks": 3, "ntests": 6, "shards": 1, "timeout": 300, "shrinktime": "4s"},
-         "thorough": {"checks": 30, "ntests": 6, "shards": 8, "timeout": 1200, "shrinktime": "30s"}},
+    ] + [
+        # one unit per start kind: a rapid case is one traced start (checks = traced starts per shard), and a
+        # saved fail file replays exactly the test function it came from
+        {"name": "crash-start-" + n, "pkg": O4, "kind": "rapid", "run": "^TestVerifC18CrashStart" + fn + "$",
+         "quick": {"checks": 3, "shards": 1, "timeout": 300, "shrinktime": "4s"},
+         "thorough": {"checks": 30, "shards": 8, "timeout": 1200, "shrinktime": "30s"}}
+        for n, fn in [("first", "First"), ("restart", "Restart"), ("restart-iat", "RestartIAT"),
+                      ("restart-explicit", "RestartExpl"), ("first-explicit", "FirstExpl"),
+                      ("restart-bad-iat", "RestartBadIAT")]
+    ] + [
         {"name": "crash-tickets", "pkg": SS, "kind": "rapid", "run": "^TestVerifC18CrashTickets$",
          "quick": {"checks": 8, "shards": 1, "timeout": 300, "shrinktime": "4s"},
          "thorough": {"checks": 30, "shards": 8, "timeout": 1200, "shrinktime": "30s"}},
